@@ -295,14 +295,18 @@ func (b *batchWriter) finish() {
 }
 
 func doCall(methodName string, f reflect.Value, params []reflect.Value) (out []reflect.Value, err error) {
+	// whether the method panicked is not something the recovered value tells: it is
+	// nil for panic(nil) in a program running with GODEBUG=panicnil=1
+	returned := false
 	defer func() {
-		if i := recover(); i != nil {
+		if i := recover(); i != nil || !returned {
 			err = xerrors.Errorf("panic in rpc method '%s': %s", methodName, i)
 			log.Desugar().WithOptions(zap.AddStacktrace(zapcore.ErrorLevel)).Sugar().Error(err)
 		}
 	}()
 
 	out = f.Call(params)
+	returned = true
 	return out, nil
 }
 
